@@ -66,6 +66,8 @@ class Ex:
         self.out = []                   # printed output (bytes pieces)
         self.lastpat = None
         self.dirty = False
+        self.semicolon_cur = None
+        self.semicolon_seen = False
 
     # ---- helpers
     def n(self):
@@ -239,6 +241,7 @@ class Ex:
 
     def _do(self, loc, cmd, arg, text):
         n = self.n()
+        self.semicolon_cur = None
         if cmd in ('a', 'i'):
             a, b = self.region(loc, allow_zero=True)
             new = list(text or [])
